@@ -211,6 +211,9 @@ def run(ctx):
                     stats["truncated"] += 1
                     if ret != "-1" or txt == "UNTERMINATED" or not T.startswith(unhex(txt)) or len(unhex(txt)) > n - 1:
                         problem = ("input", "text of length %d does not fit n=%d: expected -1 and a NUL-terminated prefix" % (L, n), "-1 <prefix>")
+                    elif kind == "ranged" and unhex(txt) != T[:n - 1]:
+                        # theorem C14_ranged_truncation: the bracketed printer leaves exactly the first n-1 bytes of the text
+                        problem = ("corr", "truncated bracketed text is not the first n-1 bytes of the whole text (theorem C14_ranged_truncation speaks of exactly those)", mo)
         if problem is None and i != mo:
             problem = ("corr", "implementation and model disagree", mo)
         if problem and perlist.get(m[2], 0) >= 2:
